@@ -110,11 +110,42 @@ class Stats:
 _WORK = None
 
 
+CURRENT_PROP = 'C??'
+
+
+def abort_violation(exc, what):
+    """An exception that escaped a whole partition / the run function.  If it
+    was raised from library code (the library refused something the world
+    set-up or an unguarded step relies on) it is reported as a violation;
+    a fault of the harness itself stays an internal error."""
+    if type(exc).__name__ == 'SetupRejected':
+        st = Stats()
+        st.violation(f"{CURRENT_PROP}:setup-declaration-rejected:"
+                     f"{exc.res[1]}", f"{what}: {exc}",
+                     {'aborted': what, 'event': exc.ev})
+        return st
+    tb = traceback.extract_tb(exc.__traceback__)
+    lib = [fr for fr in tb if '/quantity/' in fr.filename
+           and '/verif/' not in fr.filename]
+    if not lib:
+        return None
+    fr = lib[-1]
+    st = Stats()
+    st.violation(f"{CURRENT_PROP}:aborted:{type(exc).__name__}",
+                 f"{what}: {type(exc).__name__}: {exc} raised at "
+                 f"{os.path.basename(fr.filename)}:{fr.lineno} "
+                 f"({fr.line})", {'aborted': what})
+    return st
+
+
 def _call(part):
     fn, args = _WORK
     try:
         return fn(part, *args)
-    except BaseException:
+    except BaseException as exc:
+        st = abort_violation(exc, f"partition {str(part)[:120]}")
+        if st is not None:
+            return st
         st = Stats()
         st.extra['worker_error'] = traceback.format_exc()
         return st
@@ -131,8 +162,13 @@ def pmap(fn, parts, args=(), jobs=None, fresh=False):
     if not parts:
         return total
     if (jobs == 1 or len(parts) == 1) and not fresh:
+        _WORK = (fn, args)
         for p in parts:
-            total.merge(fn(p, *args))
+            st = _call(p)
+            if 'worker_error' in st.extra:
+                raise RuntimeError("worker failed:\n"
+                                   + st.extra['worker_error'])
+            total.merge(st)
         return total
     _WORK = (fn, args)
     ctx = mp.get_context('fork')
